@@ -282,15 +282,20 @@ func (client *client) setError(err error) {
 			if client.version == packets.Version5 {
 				if code, ok := err.(*codes.Error); ok {
 					if client.IsConnected() {
-						// send Disconnect
-						client.write(&packets.Disconnect{
+						// send Disconnect. Must not block: we are inside errOnce.Do, client.close is not closed
+						// yet, and a full client.out (a peer that stopped reading) would wedge every other
+						// goroutine that calls setError, including the one that would drain client.out.
+						select {
+						case client.out <- &packets.Disconnect{
 							Version: packets.Version5,
 							Code:    code.Code,
 							Properties: &packets.Properties{
 								ReasonString: code.ReasonString,
 								User:         kvsToProperties(code.UserProperties),
 							},
-						})
+						}:
+						default:
+						}
 					}
 				}
 			}
